@@ -358,6 +358,8 @@ var (
 	profile   = flag.String("profile", "load", "load (C09) | tsync (C10) | nnp (C11)")
 	replay    = flag.String("replay", "", "replay the histories of this file (one JSON per line)")
 	childDec  = flag.String("childdecide", "", "run as decision-probing child with this case (JSON)")
+	targetMk  = flag.String("target", "", "run as sandbox target: marker file to create")
+	targetEv  = flag.String("events", "[]", "target mode: probe events (JSON)")
 	childVer  = flag.String("childverify", "", "run as verifier-probing child; the raw program (JSON) is read from stdin")
 )
 
@@ -560,6 +562,10 @@ func main() {
 		child(h)
 		return
 	}
+	if *targetMk != "" {
+		targetMain(*targetMk, *targetEv)
+		return
+	}
 	if *childVer != "" {
 		var raw []rawI
 		if err := json.NewDecoder(os.Stdin).Decode(&raw); err != nil {
@@ -591,6 +597,11 @@ func main() {
 		os.Exit(2)
 	}
 	defer model.Close()
+	if *profile == "sandbox" {
+		sandboxStream(sum, model, *n, *seed)
+		finish(sum, start)
+		return
+	}
 	if *profile == "verifier" {
 		verifierStream(sum, model, *n, *seed)
 		finish(sum, start)
